@@ -267,6 +267,72 @@ def h_truncate(ex, k, mds):
     return None
 
 
+def h_internal_chunks(ex, variant, n_rows, chunk_size, spherical):
+    """the per-row kernels' own chunk loop (chunk_size rows at a time, 256 by default): row i of a batch processed in
+    several chunks equals the kernel applied to row i alone -- the clause 'unaffected by chunk sizes', and C12's row
+    independence, at the level where the chunk loop lives (the LP solve and the cosine are uninterpreted)"""
+    ot, lot = LOT()
+    metric = _setup(lot, "euclidean")
+    _uplan(lot)
+    lot.cosine = lambda a, b: values.ufun("COS", *([values.to_real(x) for x in np._A(a)._flat()] + [values.to_real(x) for x in np._A(b)._flat()]))
+    # the spherical geometry helpers are row-wise numerics: uninterpreted per row (equal rows give equal results)
+    def l2_normalize(vectors):
+        for i in range(vectors.shape[0]):
+            row = [values.to_real(x) for x in vectors[i]._flat()]
+            for j in range(vectors.shape[1]):
+                vectors[i, j] = values.ufun("L2N%d_%d" % (len(row), j), *row)
+
+    def project(euclidean_vectors, sphere_basepoints):
+        out = np.zeros(euclidean_vectors.shape, np.float64)
+        for i in range(out.shape[0]):
+            args = [values.to_real(x) for x in euclidean_vectors[i]._flat()] + [values.to_real(x) for x in sphere_basepoints[i]._flat()]
+            for j in range(out.shape[1]):
+                out[i, j] = values.ufun("PROJ%d_%d" % (len(args), j), *args)
+        return out
+    lot.l2_normalize = l2_normalize
+    lot.project_to_sphere_tangent_space = project
+
+    class _NP:
+        def __getattr__(self, k):
+            return getattr(np, k)
+
+        @staticmethod
+        def sqrt(x):
+            return values.ufun("SQRT", values.to_real(x)) if not isinstance(x, np.ndarray) else np.sqrt(x)
+    lot.np = _NP()
+    vec = [[fresh_real("v%d" % c)] for c in range(2)]
+    ref = [[fresh_real("r0")]]
+    assume(ref[0][0] != 0)
+    rows = [[fresh_real("w%d_%d" % (i, c)) for c in range(2)] for i in range(n_rows)]
+    for r_ in rows:
+        for w in r_:
+            assume(w > 0)
+    register("vectors", vec); register("reference", ref); register("rows", rows)
+
+    def run(rs, cs):
+        if variant == "sparse":
+            indptr, idx, dat = [0], [], []
+            for r_ in rs:
+                idx += [0, 1]
+                dat += list(r_)
+                indptr.append(len(idx))
+            return call(lot.lot_vectors_sparse_internal, np.array(indptr, dtype=np.int32), np.array(idx, dtype=np.int32), np.array(dat, dtype=np.float64),
+                        np.array(vec, dtype=np.float64), np.array(ref, dtype=np.float64), np.array([Q(1)], dtype=np.float64), metric=metric,
+                        max_distribution_size=256, chunk_size=cs, spherical_vectors=spherical)
+        sv, sd = numba_shim.typed.List(), numba_shim.typed.List()
+        for r_ in rs:
+            sv.append(np.array(vec, dtype=np.float64))
+            sd.append(np.array(list(r_), dtype=np.float64))
+        return call(lot.lot_vectors_dense_internal, sv, sd, np.array(ref, dtype=np.float64), np.array([Q(1)], dtype=np.float64), metric=metric,
+                    max_distribution_size=256, chunk_size=cs, spherical_vectors=spherical)
+    B = run(rows, chunk_size)
+    check("one output row per distribution", tuple(B.shape) == (n_rows, 1))
+    for i in range(n_rows):
+        S = run([rows[i]], 256)
+        check("row %d of a batch processed in chunks of %d equals the kernel applied to row %d alone" % (i, chunk_size, i), B[i, 0] == S[0, 0])
+    return None
+
+
 def cases(tier):
     cs = []
     A = ["fitted state constructed directly (reference vectors / distribution / components are arbitrary symbolic reals, reference masses > 0)",
@@ -291,6 +357,13 @@ def cases(tier):
         cs.append(Case("measure_invariance[%s,rows=%s]" % (v, s), h_measure, dict(variant=v, supports=s), replay="C08:replay_measure",
                        functions=FUNCS, assumptions=A, stubs=["transport_plan -> uninterpreted function of (p, q, cost)"], fast_ms=500,
                        bounds={"re-encoding": v, "support sizes of the rows": s, "reference points": 2, "dimension": 1, "metric": "weighted L1 (non-spherical branch)"}))
+    CG = [("sparse", 2, 1, True), ("dense", 3, 2, True), ("sparse", 3, 2, False)] if tier == "quick" else \
+        [(v, n, c, sph) for v in ("sparse", "dense") for n in (2, 3, 4) for c in (1, 2, 3) for sph in (True, False) if c < n]
+    for v, n, c, sph in CG:
+        cs.append(Case("kernel_chunks[%s,rows=%d,chunk_size=%d,spherical=%d]" % (v, n, c, int(sph)), h_internal_chunks,
+                       dict(variant=v, n_rows=n, chunk_size=c, spherical=sph), replay="C08:replay_chunks", functions=FUNCS, assumptions=A, fast_ms=500,
+                       stubs=["transport_plan -> uninterpreted function of (p, q, cost)", "pynndescent cosine -> uninterpreted function"],
+                       bounds={"kernel": v, "rows": n, "chunk_size": c, "spherical_vectors": sph, "support": 2, "reference points": 1, "dimension": 1}))
     for k, mds in TG:
         cs.append(Case("truncation[support=%d,max_distribution_size=%d]" % (k, mds), h_truncate, dict(k=k, mds=mds), replay="C08:replay_truncate",
                        functions=FUNCS, assumptions=A + ["pairwise distinct weights (tie order of argsort is outside the claim)"],
